@@ -1426,7 +1426,7 @@ func (g *gen) factoryStmt() string {
 		callAdd = func(o string) string { return o + ".more.add(" + fmt.Sprint(2+g.n(5)) + ")" }
 	default: // nested arrays
 		g.feat("factory-nested")
-		body = fmt.Sprintf("[[%s, %s], [%s], %s]", inc, get, add, pad(g.n(8)))
+		body = fmt.Sprintf("[[%s, %s], [%s], %s]", inc, get, add, pad(1+g.n(8)))
 		callInc = func(o string) string { return o + "[0][0]()" }
 		callGet = func(o string) string { return o + "[0][1]()" }
 		callAdd = func(o string) string { return o + "[1][0](" + fmt.Sprint(2+g.n(5)) + ")" }
